@@ -56,7 +56,10 @@ Definition mkrec (fmt len : N) (k : rkind) (vals : list N) (blobs : list bytes) 
 (* DecodeFlowRecord; d is the record's own sub-buffer *)
 Definition dec_flow_record (fmt len : N) (d : bytes) : res srec :=
   match fmt with
-  | 1 => let* (vs, d1) := rd_fields (u32s 4) d in Ok (mkrec fmt len KHeader vs [d1] [])
+  | 1 => let* (vs, d1) := rd_fields (u32s 4) d in
+         (* header<> is an XDR opaque: its header_length bytes, without the padding behind them (fix 5d701ef) *)
+         let hl := nth 3 vs 0 in
+         Ok (mkrec fmt len KHeader vs [if hl <? N.of_nat (length d1) then firstn (N.to_nat hl) d1 else d1] [])
   | 2 => let* (l, d1) := rd 4 d in let* (s, d2) := read 6 d1 in let* (t, d3) := read 6 d2 in
          let* (e, _) := rd 4 d3 in Ok (mkrec fmt len KEth [l; e] [s; t] [])
   | 3 => let* (vs, d1) := rd_fields (u32s 2) d in let* (s, d2) := read 4 d1 in let* (t, d3) := read 4 d2 in
